@@ -110,7 +110,6 @@ void h_register_entry_size(void)
 struct rb_ghost g_rb;
 RegisterAtom *g_cell;                 /* ghost word of contracts/registers-typed.h */
 static RegisterAtom rb_elsewhere;    /* a word outside every table object */
-static bool rb_cb_verdict[RB_NE + 1]; /* validator verdict about each register's default */
 
 struct rb_tab {
   RegisterTable *t;
@@ -193,7 +192,6 @@ static struct rb_tab rb_description(void)
         e->check.arg.cb = st_validator;
       e->name = NULL; e->user = NULL;
       e->area = NULL; e->offset = 0;
-      rb_cb_verdict[j] = SPEC_CB_VERDICT(e->address, e->type, rb_bits_of(e->type, e->default_value));
     } else if (j == in_ne) {
       RegisterEntry end = REGISTER_ENTRY_END;
       T.entry[j] = end;
@@ -232,7 +230,7 @@ void h_register_init(void)
   struct rb_tab T = rb_description();
   bool be = (T.t->flags & REG_TF_BIG_ENDIAN) != 0;
   rb_snapshot(&T);
-  g_rb.init = rb_spec_first_violation(T.area, T.na, T.entry, T.ne, be, rb_cb_verdict);
+  g_rb.init = rb_spec_first_violation(T.area, T.na, T.entry, T.ne, be);
   register_init(T.t);
   VERIF_CANARY();
 }
@@ -247,7 +245,7 @@ void h_register_init_plain(void)
   struct rb_tab T = rb_description();
   bool be = (T.t->flags & REG_TF_BIG_ENDIAN) != 0;
   rb_snapshot(&T);
-  g_rb.init = rb_spec_first_violation(T.area, T.na, T.entry, T.ne, be, rb_cb_verdict);
+  g_rb.init = rb_spec_first_violation(T.area, T.na, T.entry, T.ne, be);
   RegisterTable *t = T.t;
   RegisterInit r = register_init(t);
   CHECK(rb_init_verdict_ok(r, g_rb.init), "init: first violated rule and offender, or success");
